@@ -126,7 +126,7 @@ def parse_line_time(line):
 def oracle(case, lines, cap, kmax):
     """The property text evaluated on the implementation's output.  Raises Fail."""
     content = b""
-    level, east = 2, None
+    level, east, prev_east = 2, None, None
     if not lines or not lines[0].startswith("case "):
         raise Fail(0, "bad case line")
     for i, op in enumerate(case.ops):
@@ -222,6 +222,7 @@ def oracle(case, lines, cap, kmax):
         elif k == "LV":
             level = int(t[1])
         elif k == "TZ":
+            prev_east = east
             east = None if t[1] == "none" else int(t[1])
         elif k == "LOG":
             kv = dict(x.split("=", 1) for x in t[2:t.index("|")] if "=" in x)
@@ -255,7 +256,15 @@ def oracle(case, lines, cap, kmax):
                 variants = [b"".join((next(it) if p is None else p) for p, _ in pieces)
                             for combo in itertools.product([b"nan", b"-nan"], repeat=min(nn, 6)) for it in [iter(combo + (b"nan",) * nn)]]
                 if all(len(v) + kmax <= cap for v in variants) and not any(int(m.group(1)) == len(v) and m.group(2) == crc(v) for v in variants):
-                    raise Fail(i, "long line (%s bytes) differs from the expected %d bytes" % (m.group(1), len(variants[0])))
+                    # the one recorded way to get a stale date (same signature as for short lines): the zone was changed within
+                    # the cached second and the line is exactly the expected one with the PREVIOUS zone's date text of that second
+                    key = None
+                    if getattr(case, "tz_same_second", False):
+                        stale = expected_date(sec, prev_east)
+                        if any(int(m.group(1)) == len(v) and m.group(2) == crc(stale + v[len(stale):]) for v in variants):
+                            key = KEY_TZ
+                    raise Fail(i, "long line (%s bytes) differs from the expected %d bytes%s"
+                               % (m.group(1), len(variants[0]), " (it is the expected line with the previous zone's date text)" if key else ""), key)
                 if int(m.group(1)) > cap:
                     raise Fail(i, "line of %s bytes exceeds the buffer" % m.group(1))
             else:
@@ -510,7 +519,7 @@ def gen_logger(rng, cap, kmax, count):
             c = rng.random()
             if c < 0.15:
                 ops.append("TZ %s" % rng.choice(["none", "28800", "-18000", "3600", "20700", "0"]))
-                t += 10 ** 6 * rng.randint(1, 5)          # a zone change is always followed by a new second here
+                t += 10 ** 6 * rng.randint(1, 5)          # a zone change is followed by a new second (unless a later line steps the clock back into the cached one: the recorded finding)
                 continue
             if c < 0.25:
                 ops.append("LV %d" % rng.randint(0, 5))
